@@ -39,6 +39,8 @@ type frame struct {
 	rets    []retPoint
 	npanic  map[ssa.Instruction]string
 	joinedRecs []spawnRec
+	contrib map[string]string
+	monInit bool // monitor invariants have been established (checked before the first spawn)
 	ghostAt map[string]Val
 	iterSt  map[int]*State
 	curIter *State
@@ -400,6 +402,11 @@ func (fr *frame) execBlock(b *ssa.BasicBlock, st0 *State, reach0 string) {
 		if !isHeader {
 			fr.vals[phi] = ex.nameVal("phi", v)
 		}
+	}
+	if isHeader && !fr.monInit && fr.c != nil && len(fr.c.Monitors) > 0 && loopSpawns(fr.loops.body[b]) {
+		// the first goroutines are started inside this loop: the monitor invariants must hold before it
+		fr.curBlk = b
+		fr.checkMonitorInit(st, reach)
 	}
 	if isHeader {
 		ord := fr.loops.ordinal[b]
